@@ -192,7 +192,7 @@ impl<const N: usize> ScenN<N> {
         if toks.is_empty() {
             return "bad-op".into();
         }
-        if toks[0] == "restart" {
+        if toks[0] == "restart" || toks[0] == "close" {
             let lazy = toks.len() > 1 && toks[1] == "lazy";
             if let Some(st) = self.st.take() {
                 let r = self.rt.block_on(async { tokio::time::timeout(Duration::from_secs(60), st.close()).await });
@@ -204,17 +204,34 @@ impl<const N: usize> ScenN<N> {
                     Ok(Err(e)) => return format!("err close/{}", err_kind(&e)),
                     Ok(Ok(())) => {}
                 }
+            } else if toks[0] == "close" {
+                return "err NoStorage".into();
+            }
+            if toks[0] == "close" {
+                return "ok".into();
             }
             return self.open(lazy);
         }
-        let st = match self.st.take() {
+        if toks[0] == "open" {
+            if self.st.is_some() {
+                return "err AlreadyOpen".into();
+            }
+            let lazy = toks.len() > 1 && toks[1] == "lazy";
+            return self.open(lazy);
+        }
+        if toks[0] == "wait" {
+            let ms: u64 = toks.get(1).and_then(|x| x.parse().ok()).unwrap_or(0);
+            std::thread::sleep(Duration::from_millis(ms));
+            return "ok".into();
+        }
+        let mut st = match self.st.take() {
             Some(s) => s,
             None => return "err NoStorage".into(),
         };
         let data_tab = std::mem::take(&mut self.data);
         let mut data_tab = data_tab;
         let res: Result<String, tokio::time::error::Elapsed> = self.rt.block_on(async {
-            tokio::time::timeout(Duration::from_secs(60), Self::exec_async(&st, &toks, &mut data_tab)).await
+            tokio::time::timeout(Duration::from_secs(60), Self::exec_async(&mut st, &toks, &mut data_tab)).await
         });
         self.data = data_tab;
         self.st = Some(st);
@@ -235,7 +252,7 @@ impl<const N: usize> ScenN<N> {
     }
 
     async fn exec_async(
-        st: &Storage<ArrayKey<N>>,
+        st: &mut Storage<ArrayKey<N>>,
         toks: &[&str],
         data: &mut HashMap<Vec<u8>, (usize, u64)>,
     ) -> String {
@@ -263,13 +280,17 @@ impl<const N: usize> ScenN<N> {
                 let bytes = gen_data(len, seed);
                 data.entry(bytes.clone()).or_insert((len, seed));
                 let ts = BlobRecordTimestamp::new(ts);
+                let before = Self::active_id(st).await;
                 let r = match m {
                     None => st.write(&k, Bytes::from(bytes), ts).await,
                     Some(m) => st.write_with(&k, Bytes::from(bytes), ts, m).await,
                 };
+                Self::drain(st).await;
+                let after = Self::active_id(st).await;
+                let sw = if before.is_some() && after != before { " switched" } else { "" };
                 match r {
-                    Ok(()) => "ok".into(),
-                    Err(e) => format!("err {}", err_kind(&e)),
+                    Ok(()) => format!("ok{}", sw),
+                    Err(e) => format!("err {}{}", err_kind(&e), sw),
                 }
             }
             "d" if toks.len() == 5 => {
@@ -366,6 +387,52 @@ impl<const N: usize> ScenN<N> {
                 Ok(()) => "ok".into(),
                 Err(e) => format!("err {}", err_kind(&e)),
             },
+            "close_active_bg" => {
+                st.close_active_blob_in_background().await;
+                Self::drain(st).await;
+                "ok".into()
+            }
+            "create_active_bg" => {
+                st.create_active_blob_in_background().await;
+                Self::drain(st).await;
+                "ok".into()
+            }
+            "restore_active_bg" => {
+                st.restore_active_blob_in_background().await;
+                Self::drain(st).await;
+                "ok".into()
+            }
+            "force" => {
+                match toks.get(1).copied() {
+                    Some("always") => st.force_update_active_blob(|_| true).await,
+                    Some("never") => st.force_update_active_blob(|_| false).await,
+                    Some("nonempty") => st.force_update_active_blob(|s| s.map_or(false, |s| s.records_count > 0)).await,
+                    Some("ge3") => st.force_update_active_blob(|s| s.map_or(false, |s| s.records_count >= 3)).await,
+                    _ => return "bad-op".into(),
+                };
+                Self::drain(st).await;
+                "ok".into()
+            }
+            "free" => {
+                let _ = st.free_excess_resources().await;
+                Self::drain(st).await;
+                "ok".into()
+            }
+            "offload" => {
+                use pearl::BloomProvider;
+                let mem: usize = toks.get(1).and_then(|x| x.parse().ok()).unwrap_or(usize::MAX);
+                let lvl: usize = toks.get(2).and_then(|x| x.parse().ok()).unwrap_or(0);
+                let _ = st.offload_buffer(mem, lvl).await;
+                "ok".into()
+            }
+            "fsync" => match st.fsyncdata().await {
+                Ok(()) => "ok".into(),
+                Err(e) => format!("err IO/{:?}", e.kind()),
+            },
+            "alive" => {
+                Self::drain(st).await;
+                if st.verif_worker_alive() { "alive".into() } else { "dead".into() }
+            }
             "settle" => Self::settle(st).await,
             "states" => {
                 let states = st.verif_blob_states().await;
@@ -399,6 +466,24 @@ impl<const N: usize> ScenN<N> {
                 )
             }
             _ => "bad-op".into(),
+        }
+    }
+
+    async fn active_id(st: &Storage<ArrayKey<N>>) -> Option<usize> {
+        st.verif_blob_states().await.iter().find(|b| b.active).map(|b| b.id)
+    }
+
+    /// wait until the worker has processed every message sent so far (or died)
+    async fn drain(st: &Storage<ArrayKey<N>>) {
+        let deadline = tokio::time::Instant::now() + Duration::from_secs(20);
+        loop {
+            if pearl::verif::msgs_done() >= pearl::verif::msgs_sent() || !st.verif_worker_alive() {
+                return;
+            }
+            if tokio::time::Instant::now() > deadline {
+                return;
+            }
+            tokio::time::sleep(Duration::from_millis(1)).await;
         }
     }
 
